@@ -193,11 +193,12 @@ class CtlHost(UTMIHost):
     """UTMIHost whose cycle() also assembles raw device packets and samples the observer ports; executes
     host-action scripts and returns one record per action."""
 
-    def __init__(self, built, rng, gap_prob=0.0, stall_prob=0.0, tx_mon=(), resp_wait=24):
+    def __init__(self, built, rng, gap_prob=0.0, stall_prob=0.0, tx_mon=(), resp_wait=24, window=(2, 18)):
         super().__init__(built.utmi, rng, gap_prob=gap_prob, stall_prob=stall_prob)
         self.b = built
         self.tx_mon = list(tx_mon)          # [(signal, set of values meaning "driving")]
         self.resp_wait = resp_wait
+        self.window = window                # (earliest, latest) cycle after the end of a host packet the DUT may answer in
         self.setup_if = built.setup_if      # SetupPacket record with .received and the decoded fields
         self.addr_sig = getattr(built, "addr_sig", None)
         self.cfg_sig = getattr(built, "cfg_sig", None)
@@ -333,6 +334,7 @@ class CtlHost(UTMIHost):
         rec["mon"] = bool(self.tx_mon)
         rec["su"] = self.su
         rec["sf"] = list(self.sf)
+        rec["mg"], rec["xg"] = self.window
         rec["oa"] = ctx.get(self.addr_sig) if self.addr_sig is not None else 0
         rec["oc"] = ctx.get(self.cfg_sig) if self.cfg_sig is not None else 0
         self.su = 0
@@ -437,13 +439,14 @@ class Runner:
     """One elaborated DUT (`built.top`), many scripts (simulator reset between runs)."""
 
     def __init__(self, built, rng, clock=1 / 12e6, gap_prob=0.0, stall_prob=0.0, monitors=True, resp_wait=24,
-                 prime=None):
+                 prime=None, window=(2, 18)):
         from amaranth.sim import Simulator
         self.b = built
         self.rng = rng
         self.gap_prob = gap_prob
         self.stall_prob = stall_prob
         self.resp_wait = resp_wait
+        self.window = window
         self.prime = prime
         self.sim = Simulator(built.top)
         self.sim.add_clock(clock, domain="usb")
@@ -456,7 +459,7 @@ class Runner:
 
     async def _bench(self, ctx):
         host = CtlHost(self.b, self.rng, gap_prob=self.gap_prob, stall_prob=self.stall_prob, tx_mon=self.tx_mon,
-                       resp_wait=self.resp_wait)
+                       resp_wait=self.resp_wait, window=self.window)
         if self.prime is not None:
             self.prime(ctx, self.b)
         await host.idle(ctx, 6)
@@ -517,9 +520,9 @@ def build_setup_decoder(speed):
     return b
 
 
-def DecoderRunner(rng, speed, gap_prob=0.0):
+def DecoderRunner(rng, speed, gap_prob=0.0, window=(10, 90)):
     b = build_setup_decoder(speed)
-    return Runner(b, rng, clock=1 / 60e6, gap_prob=gap_prob, monitors=False, resp_wait=120)
+    return Runner(b, rng, clock=1 / 60e6, gap_prob=gap_prob, monitors=False, resp_wait=120, window=window)
 
 
 # ---- convenience script builders (host-side transaction shapes) ----------------------------------
